@@ -99,6 +99,18 @@ def storeSignJWTHeaders (found : Bool) (h : Headers) (kid : String) : Except JEr
   if !found then .error .keyNotFound
   else signJWTHeaders (hput (dedup h) "kid" (.str kid))
 
+/-- `MemoryJWTSigner`'s own guard: `if kid != m.Key.KeyID() { return "", ErrPrivateKeyNotFound }` — the signer holds
+    exactly the key id its JWK carries (an unnamed JWK has key id "": it answers to the empty kid only) -/
+def memHolds (keyId kid : String) : Bool := !(kid != keyId)
+
+/-- `MemoryJWTSigner.SignJWS`: the kid guard, `headers["kid"] = kid`, the package-level function -/
+def memSignJWSHeaders (keyId : String) (h : Headers) (kid : String) : Except JErr Headers :=
+  storeSignJWSHeaders (memHolds keyId kid) h kid
+
+/-- `MemoryJWTSigner.SignJWT`: headers copied, the kid guard, `kid` set, the package-level function -/
+def memSignJWTHeaders (keyId : String) (h : Headers) (kid : String) : Except JErr Headers :=
+  storeSignJWTHeaders (memHolds keyId kid) h kid
+
 /-- `dpop.jwkIsPrivateKey`: Raw into rsa.PrivateKey / ecdsa.PrivateKey / ed25519.PrivateKey values -/
 def dpopPrivateTypes : List String := ["*rsa.PrivateKey", "*ecdsa.PrivateKey", "ed25519.PrivateKey", "[]uint8"]
 def dpopJwkIsPrivate (rawType : String) : Bool := dpopPrivateTypes.contains rawType
